@@ -409,6 +409,7 @@ fn do_case(t: &mut Trace, st: &mut Stats, case: u64, spec: &PipeSpec, msgs: &[Dl
     let refv: Vec<Value> = r.recv.iter().map(|(i, l, h)| json!({"idx":i,"lc":l,"hash":h})).collect();
     t.ev(json!({"ev":"reset","case":case,"hdr":{"sorted":spec.sort,"stages":spec.stages(),"ref":refv,"reftable":r.table.unwrap(),
         "caps":caps,"drop_at":pacing.drop_at.map(|x| x as i64).unwrap_or(-1),"n_in":msgs.len(),
+        "max_p_stall_ms":pacing.p_stalls.iter().map(|x| x.1).max().unwrap_or(0),"max_c_stall_ms":pacing.c_stalls.iter().map(|x| x.1).max().unwrap_or(0),
         "spec":format!("{:?}", spec),"pacing":format!("{:?}", pacing),"info":info}}));
     let o = run_pipeline(spec, msgs, caps, pacing);
     // `pos` is only a search hint for TLC (where in the reference a message with this tag sits; 0 = nowhere); TLC verifies it
@@ -542,6 +543,50 @@ fn main() {
             }
         }
         ok = do_case(&mut t, &mut st, cno, &spec, &msgs, &caps, &pacing, scaled, json!({"random": r}));
+        if !ok {
+            st.hung = true;
+        }
+    }
+    // long stalls: ONE stall longer than any time-out a stage could plausibly use (a stalled producer / consumer must only
+    // delay). Consecutive case numbers, so the shards run them in parallel.
+    let n_long = a.num("--long", 0);
+    for r in 0..n_long {
+        let my = case % nshards == shard && only.map(|o| o == case).unwrap_or(true);
+        case += 1;
+        if !my || !ok {
+            continue;
+        }
+        let cno = case - 1;
+        let mut rng = Rng::new(seed.wrapping_mul(9_000_011).wrapping_add(r));
+        // pipelines with and without filter / sort / plugin stages
+        let spec = match r % 6 {
+            0 => PipeSpec { remote_wiring: false, plugin: 0, sort: false, filter: true },
+            1 => PipeSpec { remote_wiring: false, plugin: 3, sort: true, filter: true },
+            2 => PipeSpec { remote_wiring: true, plugin: 1, sort: false, filter: false },
+            3 => PipeSpec { remote_wiring: false, plugin: 2, sort: false, filter: true },
+            4 => PipeSpec { remote_wiring: true, plugin: 0, sort: true, filter: false },
+            _ => PipeSpec { remote_wiring: false, plugin: 0, sort: false, filter: false },
+        };
+        let n = rng.range(30, 70) as usize;
+        // variant: 0 producer stall mid-stream (stream spans minutes: the lifecycle stage already forwards),
+        //          1 producer stall while the lifecycle stage still buffers everything (short span, nothing confirmed yet),
+        //          2 consumer stall, 3 a 6 s producer stall (thorough)
+        let variant = match r % 12 {
+            2 | 8 => 2,
+            4 | 9 => 1,
+            11 => 3,
+            _ => 0,
+        };
+        let msgs = gen_stream(&mut rng, n, variant != 1);
+        let caps: Vec<usize> = (0..spec.nchan()).map(|_| *rng.pick(&cap_alphabet[0..3])).collect();
+        let mut pacing = Pacing::default();
+        let at = rng.range((n / 4) as u64, (3 * n / 4) as u64) as usize;
+        match variant {
+            2 => pacing.c_stalls.push((at.max(1) / 2 + 1, rng.range(2600, 3200))),
+            3 => pacing.p_stalls.push((at, 6000)),
+            _ => pacing.p_stalls.push((at, rng.range(2600, 3500))),
+        }
+        ok = do_case(&mut t, &mut st, cno, &spec, &msgs, &caps, &pacing, None, json!({"long": r, "variant": variant}));
         if !ok {
             st.hung = true;
         }
